@@ -490,7 +490,7 @@ def extra_checks(tier, rng, findings):
     table = {}
     ill = set(probes.ILL)
     for (name, B, L), (outcome, detail, src) in sorted(res.items()):
-        table['%s<%d,%d>' % (name, B, L)] = outcome + (': ' + detail if detail and outcome != 'compile-error' else '')
+        table['%s<%d,%d>' % (name, B, L)] = outcome + (': ' + detail if detail and (outcome != 'compile-error' or 'incorrect LIMBS' not in detail) else '')
         case = 'probe %d %d %s' % (B, L, name)
         if (B, L) in ill:
             if outcome == 'value':
@@ -507,6 +507,9 @@ def extra_checks(tier, rng, findings):
             # controls on well-formed types must yield a value, otherwise the probe itself is broken
             if outcome not in ('value',):
                 cov.setdefault('probe_control_failures', []).append(case + ' -> ' + outcome + ' ' + detail)
+    cov['compile_errors_due_to_LIMBS_assert'] = sum(1 for v in res.values() if v[0] == 'compile-error' and 'incorrect LIMBS' in v[1])
+    cov['compile_errors_other_reason'] = sorted('%s<%d,%d>: %s' % (k[0], k[1], k[2], v[1][:80]) for k, v in res.items()
+                                                if v[0] == 'compile-error' and 'incorrect LIMBS' not in v[1])
     cov['history_operation_counts'] = dict(sorted(HIST_OPS.items()))
     cov['compile_probes'] = {'count': len(res), 'pairs_illformed': sorted(ill), 'outcomes': table,
                              'summary': {o: sum(1 for v in res.values() if v[0] == o) for o in ('compile-error', 'panic', 'none', 'value', 'timeout')}}
